@@ -59,6 +59,12 @@ def domain(t, rng, limit=8):
     return [codec.decode(t, [(r >> i) & 1 for i in range(n)]) for r in rows]
 
 
+def setup():
+    from ..monitors import reach
+
+    reach.install_paths(['qlasskit.qlassfun:UnboundQlassf.bind', 'qlasskit.ast2ast.astrewriter:ASTRewriter.visit_Assign'])
+
+
 def cases(tier, seed):
     rng = random.Random(8000 + seed)
     for c in CORPUS:
@@ -130,6 +136,15 @@ def fp(qf):
 
 
 def check(case):
+    from ..monitors import reach
+
+    r = _check_inner(case)
+    if isinstance(r, dict):
+        r.setdefault("counters", {}).update(reach.take())
+    return r
+
+
+def _check_inner(case):
     from qlasskit import qlassf
 
     src, args, ret, pidx = case["src"], case["args"], case["ret"], case["params"]
